@@ -116,6 +116,32 @@ theorem run_executes_unrolled_instances (cfg : Cfg F) (ch : PChain F) (h : (cfg.
     (cfg.run ch).trace.map (·.comp) = cfg.unroll :=
   Cfg.run_comps cfg ch h
 
+/-- `Branch` (`if_` / `if_else_`, either arm, whatever the condition says): the `init` of a block that contains a
+branch establishes the own parameters of EVERY instance in the if body and in the else body — on any state,
+whatever stale values of the same type and identifier it holds — provided the level (both arms and the rest of
+the block) gives instances of one type and identifier the same values. -/
+theorem branch_init_establishes_both_arms (b : Bool) (tb eb rest : Cfg F) (ch : PChain F)
+    (hw : levelConsistent (fun x y => decide (x = y)) (Cfg.branch b tb eb rest).level = true) :
+    ∀ d ∈ tb.level ++ eb.level, compSeen d ((Cfg.branch b tb eb rest).init ch) = some d.own := by
+  intro d hd
+  have hmem : d ∈ (Cfg.branch b tb eb rest).level := by
+    simp only [Cfg.level, List.mem_append] at hd ⊢
+    rcases hd with h | h
+    · exact Or.inl h
+    · exact Or.inr (Or.inl h)
+  exact Cfg.init_sees _ (fun _ _ h => of_decide_eq_true h) _ d ch
+    (fun c hc => (levelConsistent_iff _ _).mp hw c hc d hmem) (Or.inl hmem)
+
+/-- A run of a well-formed configuration that starts with a branch, on ANY state: the branch executes exactly the
+instances of the arm its condition selects (nothing of the other arm), then the rest of the block — and every
+one of these executions reads its own values. -/
+theorem branch_runs_selected_arm_with_own_parameters (b : Bool) (tb eb rest : Cfg F) (ch : PChain F)
+    (hw : (Cfg.branch b tb eb rest).wellFormed = true) (h : ((Cfg.branch b tb eb rest).run ch).live = true) :
+    ((Cfg.branch b tb eb rest).run ch).trace.map (·.comp) = (if b then tb.unroll else eb.unroll) ++ rest.unroll ∧
+    ∀ o ∈ ((Cfg.branch b tb eb rest).run ch).trace, o.seen = some o.comp.own :=
+  ⟨by rw [Cfg.run_comps _ ch h]; rfl,
+   Cfg.run_own (fun x y => decide (x = y)) (fun _ _ h => of_decide_eq_true h) _ ch hw⟩
+
 /-- In particular an instance constructed with rate 0 never reads another rate. -/
 theorem rate_zero_instance_reads_zero (cfgs : List (Cfg F)) (ch : PChain F)
     (hw : ∀ cfg ∈ cfgs, cfg.wellFormed = true) (z : Param F) :
@@ -152,6 +178,30 @@ example : ((runAll [nestedCfg, .leaf ⟨.bitflip, 0, .nan, .fin 0⟩ .done] stal
     [[some (.fin 1), some (.fin 0), some (.fin 1), some (.fin 1), some (.fin 0), some (.fin 1)], [some (.fin 0)]] := by
   decide
 example : (nestedCfg.run staleChain).live = true ∧ nestedCfg.unroll.length = 6 := by decide
+/-- rate 1 outside; in a scope an `if_else_` whose IF arm holds the rate-0 instance of the same type and identifier
+(else arm: another identifier), condition true / false; then a plain `if_` in a loop: well-formed, the executions
+read 1, 0 (if arm) resp. 1, 1 (else arm, identifier 1), then 0 twice (identifier 2). -/
+def branchCfg (b : Bool) : Cfg Int :=
+  .leaf ⟨.bitflip, 0, .nan, .fin 1⟩
+    (.scope (.branch b (.leaf ⟨.bitflip, 0, .nan, .fin 0⟩ .done) (.leaf ⟨.bitflip, 1, .nan, .fin 1⟩ .done) .done)
+      (.loop 2 (.branch true (.leaf ⟨.bitflip, 2, .nan, .fin 0⟩ .done) .done .done) .done))
+
+example : (branchCfg true).wellFormed = true ∧ (branchCfg false).wellFormed = true := by decide
+example : ((branchCfg true).run staleChain).trace.map (fun o => o.seen.map (·.rate)) =
+    [some (.fin 1), some (.fin 0), some (.fin 0), some (.fin 0)] := by decide
+example : ((branchCfg false).run staleChain).trace.map (fun o => (o.comp.ident, o.seen.map (·.rate))) =
+    [(0, some (.fin 1)), (1, some (.fin 1)), (2, some (.fin 0)), (2, some (.fin 0))] := by decide
+/-- both arms belong to the level of the enclosing block: the same type and identifier with different rates in the
+if arm and in the else arm is NOT well-formed (the else arm's `init` comes later and wins) -/
+example : (Cfg.branch true (.leaf ⟨.bitflip, 0, .nan, .fin 0⟩ .done) (.leaf ⟨.bitflip, 0, .nan, .fin (1 : Int)⟩ .done) .done).wellFormed = false ∧
+    ((Cfg.branch true (.leaf ⟨.bitflip, 0, .nan, .fin 0⟩ .done) (.leaf ⟨.bitflip, 0, .nan, .fin (1 : Int)⟩ .done) .done).run ⟨[], []⟩).trace.map
+      (fun o => o.seen.map (·.rate)) = [some (.fin 1)] := by decide
+/-- hypotheses of `branch_init_establishes_both_arms` / `branch_runs_selected_arm_with_own_parameters` -/
+example : levelConsistent (fun x y => decide (x = y))
+    (Cfg.branch true (.leaf ⟨.normal, 0, .fin 3, .fin 0⟩ .done) (.leaf ⟨.normal, 1, .fin 25, .fin (1 : Int)⟩ .done) .done).level = true ∧
+    ((Cfg.branch true (.leaf ⟨.normal, 0, .fin 3, .fin 0⟩ .done) (.leaf ⟨.normal, 1, .fin 25, .fin (1 : Int)⟩ .done) .done).run staleChain).live = true := by
+  decide
+
 /-- two instances of one type and identifier with different rates at ONE level are not well-formed (the later
 `init` wins: both read rate 0) -/
 example : (Cfg.leaf ⟨.scramble, 0, .nan, .fin 1⟩ (.leaf ⟨.scramble, 0, .nan, .fin (0 : Int)⟩ .done)).wellFormed = false ∧
